@@ -89,7 +89,8 @@ def call_add_signal(fr, stg, spec, opts, brange, ref, lo, hi, R=None):
         # the range as a caller has it: plain numbers or astropy quantities in any frequency unit, tuple or list (the strata are
         # chosen from the numbers themselves so that every caller of this function covers them)
         from astropy import units as u
-        form = int(abs(brange[0]) * 7 + abs(brange[1])) % 6
+        fin_ = [abs(x) for x in brange if np.isfinite(x)]
+        form = int((fin_[0] * 7 + fin_[-1]) if fin_ else 0) % 6
         lo_f, hi_f = float(brange[0]), float(brange[1])
         if form == 1:
             br = (lo_f * u.Hz, hi_f * u.Hz)
